@@ -7,11 +7,11 @@ import os
 import vlib
 
 TTL_MS, UNIT_MS, MARGIN_MS = 300, 120, 25        # ttl = 2.5 units: no event ever falls within 60 ms of a deadline
-BACKENDS = ["memory", "redis", "hybrid-redis", "hybrid-shared-mem", "hybrid-mem"]
-PTR = {"memory": 1, "hybrid-mem": 1, "hybrid-shared-mem": 1, "redis": 0, "hybrid-redis": 0}     # Get hands back the stored Go value
-INCL = {"memory": 1, "hybrid-mem": 1, "hybrid-shared-mem": 1, "redis": 0, "hybrid-redis": 0}    # readable at exactly the deadline (never observed)
+BACKENDS = ["memory", "redis", "hybrid-redis", "hybrid-shared-mem", "hybrid-mem", "hybrid-persist"]
+PTR = {"memory": 1, "hybrid-mem": 1, "hybrid-shared-mem": 1, "hybrid-persist": 1, "redis": 0, "hybrid-redis": 0}     # Get hands back the stored Go value
+INCL = {"memory": 1, "hybrid-mem": 1, "hybrid-shared-mem": 1, "hybrid-persist": 1, "redis": 0, "hybrid-redis": 0}    # readable at exactly the deadline (never observed)
 
-CONNECT, AUTHOK, AUTHFAIL, KICK, HEARTBEAT, CLOSE, TICK, STALE, SEND, SENDRACE, SREG, SUNREG, SREFRESH = 0, 1, 2, 3, 4, 5, 6, 7, 8, 9, 10, 11, 12
+CONNECT, AUTHOK, AUTHFAIL, KICK, HEARTBEAT, CLOSE, TICK, STALE, SEND, SENDRACE, SREG, SUNREG, SREFRESH, AUTHLOST = 0, 1, 2, 3, 4, 5, 6, 7, 8, 9, 10, 11, 12, 13
 SIDE_CONDITIONS = 9   # lemmas of Proofs/SideC08.v
 
 
@@ -102,6 +102,11 @@ def session_history(rng, nodes, clients, length):
                     login(n, c, x)
                 else:
                     tunnelled.add(c)
+            elif r < 0.80 and (n, x) not in regmap:
+                # the login authenticates but its response is lost; the node then closes the dead connection
+                ops.append([AUTHLOST, n, c, x, rand_shape(rng)])
+                ops.append([CLOSE, n, c])
+                open_conns.remove((n, c))
             elif r < 0.87:
                 # the auth handler kicked the old connection but the login did not complete (response lost / rejected)
                 ops.append([KICK, n, x, c])
@@ -239,6 +244,11 @@ def scripted(rng):
                                                [TICK, 2], [SEND, 2, 99, via], [CLOSE, 1, 1]]))
         out.append(("forwarder-races-move", [[CONNECT, 2, 1], [AUTHOK, 2, 1, x, 0], [CONNECT, 1, 2], [SENDRACE, 1, 2, x, 1, via, 1], [HEARTBEAT, 1, 2],
                                               [TICK, 2], [CLOSE, 2, 1], [HEARTBEAT, 1, 2], [TICK, 2], [CLOSE, 1, 2]]))
+    # a handshake on another (or the same) node authenticates but its response cannot be delivered: NOT a successful handshake —
+    # the client's live connection keeps the lookup; the dead connection is closed by its node, heartbeats continue
+    for n2 in (2, 1):
+        out.append(("response-lost", [[CONNECT, 1, 1], [AUTHOK, 1, 1, x, 0], [HEARTBEAT, 1, 1], [CONNECT, n2, 2], [AUTHLOST, n2, 2, x, 0], [CLOSE, n2, 2],
+                                      [HEARTBEAT, 1, 1], [TICK, 2], [HEARTBEAT, 1, 1], [TICK, 2], [CLOSE, 1, 1]]))
     # three nodes, ping-pong, cleanups in reverse order
     out.append(("three-nodes", [[CONNECT, 1, 1], [AUTHOK, 1, 1, x], [CONNECT, 2, 2], [AUTHOK, 2, 2, x], [CONNECT, 3, 3],
                                 [AUTHOK, 3, 3, x], [CLOSE, 2, 2], [HEARTBEAT, 3, 3], [TICK, 2], [CLOSE, 1, 1],
@@ -311,7 +321,7 @@ def conc_cases(ctx, thorough):
     for sched in rng.sample(all420, 40):
         out.append(mkc("hybrid-redis", old, moving, sched, 3, [x], "lookup||move"))
     # the writers' own windows: all 15 interleavings each
-    for backend in ("memory", "redis", "hybrid-redis", "hybrid-shared-mem", "hybrid-mem"):
+    for backend in ("memory", "redis", "hybrid-redis", "hybrid-shared-mem", "hybrid-mem", "hybrid-persist"):
         for sched in multiset_perms([4, 2]):
             out.append(mkc(backend, old, [[TH_UNREG, 1, 1], [TH_REG, 2, 2, x, 1]], sched, 2, [x], "unregister||register:exhaustive"))
             out.append(mkc(backend, old, [[TH_REFRESH, 1, 1], [TH_REG, 2, 2, x, 1]], sched, 2, [x], "refresh||register:exhaustive"))
@@ -355,6 +365,8 @@ def realauth_cases(ctx, thorough):
             [[0, 1, 1], [1, 1, 1, 0], [3, 1, 1], [0, 1, 2], [1, 1, 2, 1], [0, 2, 3], [1, 2, 3, 1], [3, 1, 1], [2, 2, 3], [3, 1, 1], [2, 1, 2], [2, 1, 1]]},
            {"mode": "realauth", "tag": "untyped-login-then-tunnel", "ops":
             [[0, 2, 1], [1, 2, 1, 2], [0, 1, 2], [1, 1, 2, 1], [2, 1, 2], [3, 2, 1], [2, 2, 1]]},
+           {"mode": "realauth", "tag": "response-lost", "ops":
+            [[0, 1, 1], [1, 1, 1, 0], [3, 1, 1], [0, 2, 2], [1, 2, 2, 3], [2, 2, 2], [3, 1, 1], [2, 1, 1]]},
            {"mode": "realauth", "tag": "move-control-then-tunnel", "ops":
             [[0, 1, 1], [1, 1, 1, 0], [0, 2, 2], [1, 2, 2, 0], [0, 1, 3], [1, 1, 3, 1], [2, 1, 1], [3, 2, 2], [2, 1, 3], [3, 2, 2]]}]
     for _ in range(40 if thorough else 6):
@@ -391,7 +403,7 @@ def state_phases(ctx, thorough):
     x = 7
     old = [[4, 1, 1, x]]
     out = []
-    for backend in ("memory", "redis", "hybrid-redis", "hybrid-shared-mem"):
+    for backend in ("memory", "redis", "hybrid-redis", "hybrid-shared-mem", "hybrid-persist"):
         for sched in multiset_perms([2, 2]):
             out.append(mkc(backend, old, [[6, 1, 1, x], [4, 2, 2, x]], sched, 2, [x], "state:disconnect||connect:exhaustive"))
             out.append(mkc(backend, old, [[5, 1, 1, x], [4, 2, 2, x]], sched, 2, [x], "state:heartbeat||connect:exhaustive"))
@@ -450,6 +462,7 @@ def case_value(c, o):
         ops.append(op)
     return [list(o["variant"]), [PTR[c["backend"]], INCL[c["backend"]]], c["ttl_ms"], 0 if c["mode"] == "store" else 1,
             list(c["clients"]), ops, [[[list(a) for a in node] for node in step] for step in o["obs"][:n]],
+            [] if any(op[0] == AUTHLOST for op in c["ops"]) else
             [[[list(a) for a in node] for node in step] for step in (o.get("rs") or [])[:n]]]
 
 
